@@ -3,7 +3,7 @@ package checks
 import (
 	"fmt"
 	"math/big"
-	"runtime"
+	"runtime/metrics"
 	"strings"
 
 	wire "github.com/jeroenrinzema/psql-wire"
@@ -93,7 +93,7 @@ func (ch c20) queries(c *core.Ctx) []string {
 		}
 	}
 	qs = append(qs, "", "$", "$$", "$$ $1 $$", "?", "??", "$1$2", "$1a", "$a1", "'$1'", "\"?\"", "$-1", "$+1", "$ 1", "$１", "ü$1é?", "$1?$2?", strings.Repeat("?", 70000), strings.Repeat("$1 ", 30000), strings.Repeat("$", 5000)+"7")
-	nrand := 20000
+	nrand := 120000
 	if c.Tier == "thorough" {
 		nrand = 3000000
 	}
@@ -136,7 +136,12 @@ func (ch c20) Run(c *core.Ctx) {
 		return
 	}
 	max16 := big.NewInt(65535)
-	var ms runtime.MemStats
+	// cumulative heap allocation in bytes, read without stopping the world
+	sample := []metrics.Sample{{Name: "/gc/heap/allocs:bytes"}}
+	allocated := func() uint64 {
+		metrics.Read(sample)
+		return sample[0].Value.Uint64()
+	}
 	for idx := c.Batch; idx < len(qs); idx += nb {
 		if !c.Begin(idx) || c.NViol() >= 10 {
 			continue
@@ -170,11 +175,9 @@ func (ch c20) Run(c *core.Ctx) {
 			gap = true
 		}
 		// direct call with allocation accounting (crash oracle = this child process)
-		runtime.ReadMemStats(&ms)
-		before := ms.TotalAlloc
+		before := allocated()
 		res := wire.ParseParameters(q)
-		runtime.ReadMemStats(&ms)
-		delta := ms.TotalAlloc - before
+		delta := allocated() - before
 		c.Count("direct_calls", 1)
 		c.Eval(c20norm(q), gap || huge || (nd > 0 && nq > 0))
 		if idx < 3*nb {
